@@ -102,6 +102,15 @@ PROPS['C14'] = {
     'trusted': CONC_TRUST,
 }
 
+PROPS['C16'] = {
+    'modules': ['OtterVerif.Props.C16'],
+    'engines': [unit('mpsc', 120, 6000, chunk=10),
+                {'kind': 'unit', 'name': 'concmpsc', 'hcmd': 'conc-mpsc', 'dcmd': 'concmpsc', 'quick': 120, 'thorough': 6000, 'chunk': 10, 'args': []}],
+    'rule': 'UNIT-mpsc: sequential push/pop phases over initial/maximum capacity pairs (2..100 / 4..2048), every chunk switch and the full/empty boundaries; model must reproduce the five index words and chunk lengths, oracle = bounded FIFO. '
+            'CONC-mpsc: 1-12 real producers with (a) no consumer and offers that fit: no refusal allowed, (b) a consumer: delivery log exactly-once and in per-producer order. distinct = distinct transcripts with >= 10 lines',
+    'trusted': UNIT_TRUST + CONC_TRUST,
+}
+
 for _p in PROPS.values():
     _p.setdefault('rule', SEQ_RULE)
     _p.setdefault('trusted', SEQ_TRUST)
